@@ -3,5 +3,7 @@
 set -e
 cd "$(dirname "$0")"
 /venv/bin/python harness/extract.py
+/venv/bin/python -c "import sys; sys.path.insert(0, 'harness'); import pytolean; print('rule bodies translated:', len(pytolean.regenerate('${VAKT_REPO:-/repo}', 'lean')[1]))"
 cd lean
 lake build 2>&1 | tail -5
+lake build Gen 2>&1 | tail -2
